@@ -21,34 +21,67 @@ package engine
 //@   requires g != nil
 //@   requires rb != nil ==> wfSorted(rb.Kc)
 //@   ghost S = rb.Kc.SortRules
-//@   ghost cursor int = 0
-//@   ghost failed bool = false
-//@   ghost pend bool = false
-//@   ghost lastRule ref = nil
-//@   ghost lastVal ref = nil
-//@   ghost R = emptyset(string)
-//@   oncall (*base.RuleEntity).Execute
-//@     assert [C04] order: recv == S[cursor] && cursor < len(S)
-//@     assert [C04] stoponerr: b || !failed
-//@     assert [C11] flushed: !pend
-//@     assert [C11] freshmap: fresh(g.returnResult) && dom(g.returnResult) == R
-//@     after failed := failed || callresult.1 != nil
-//@     after cursor := cursor + 1
-//@     after pend := callresult.2
-//@     after lastRule := recv
-//@     after lastVal := callresult.0
-//@   oncall (*Gengine).addResult
-//@     assert [C11] onlyflag: pend && arg0 == lastRule.RuleName && arg1 == lastVal
-//@     after pend := false
-//@     after R := setadd(R, arg0)
-//@   ensures [C04] contall: rb != nil && len(S) > 0 && b ==> cursor == len(S) && ((result != nil) <==> failed)
-//@   ensures [C04] stopfirst: rb != nil && len(S) > 0 && !b ==> (failed ==> result != nil) && (!failed ==> result == nil && cursor == len(S))
+//@   use seqmonitor(S, false, b)
+//@   use seqpost(S, b, rb != nil && len(S) > 0)
 //@   ensures [C04] norules: rb == nil || len(S) == 0 ==> result != nil && cursor == 0
-//@   ensures [C11] resultmap: rb != nil ==> !pend && fresh(g.returnResult) && dom(g.returnResult) == R
 //@   modifies frame rulerun, g.returnResult
 //@   nopanic
-//@   loop 0 invariant cur: cursor == rangeindex + 1 && 0 <= cursor && cursor <= len(S)
-//@   loop 0 invariant err: (len(eMsg) > 0 <==> failed) && (!b ==> !failed)
-//@   loop 0 invariant res: !pend && fresh(g.returnResult) && dom(g.returnResult) == R && g.returnResult != nil
-//@   loop 0 invariant lk: !held(g.lock)
-//@   loop 0 decreases len(S) - rangeindex
+//@   use seqloop(0, S, b)
+
+//@ func (*Gengine).ExecuteWithStopTagDirect
+//@   props C04 C11 C09 C14
+//@   entry nolocks
+//@   requires g != nil && sTag != nil
+//@   requires rb != nil ==> wfSorted(rb.Kc)
+//@   ghost S = rb.Kc.SortRules
+//@   use seqmonitor(S, sTag.StopTag, b)
+//@   use seqpost(S, b, rb != nil && len(S) > 0)
+//@   ensures [C04] norules: rb == nil || len(S) == 0 ==> result != nil && cursor == 0
+//@   modifies frame rulerun, g.returnResult
+//@   nopanic
+//@   use seqloop(0, S, b)
+
+//@ func (*Gengine).ExecuteSelectedRules$1
+//@   use lesscontract(C04 C12)
+
+//@ func (*Gengine).ExecuteSelectedRules
+//@   props C04 C11 C09 C12
+//@   entry nolocks
+//@   requires g != nil
+//@   requires rb != nil ==> wfEntities(rb.Kc)
+//@   ghost perm = idperm()
+//@   ghost iperm = idperm()
+//@   use selectloop(0, names)
+//@   use seqmonitor(rules, false, true)
+//@   use seqpost(rules, true, cursor > 0)
+//@   ensures [C12] nothingselected: cursor == 0 ==> result != nil
+//@   modifies frame rulerun, g.returnResult
+//@   nopanic
+//@   use seqloop(1, rules, true)
+//@   use selectedfacts(1, names)
+//@   loop 1 invariant [C04] sorted: sortedDesc(rules)
+
+//@ func (*Gengine).ExecuteConcurrent$1
+//@   use ruletask(wg, C05 C09 C11)
+
+//@ func (*Gengine).ExecuteConcurrent
+//@   props C05 C09 C11
+//@   entry nolocks
+//@   requires g != nil
+//@   requires rb != nil ==> wfEntities(rb.Kc)
+//@   ghost anyfail bool = false
+//@   ghost nfork int = 0
+//@   ghost KC0 = rb.Kc
+//@   ghost R = emptyset(string)
+//@   oncall go $1
+//@     assert [C11] freshmap: fresh(g.returnResult) && dom(g.returnResult) == R
+//@     after anyfail := anyfail || t_tfailed
+//@     after nfork := nfork + 1
+//@     after R := ite(t_tret, setadd(R, b_rr.RuleName), R)
+//@   ensures [C05] errpolicy: rb != nil && len(rb.Kc.RuleEntities) > 0 ==> ((result != nil) <==> anyfail)
+//@   ensures [C11] resultmap: rb != nil ==> fresh(g.returnResult) && dom(g.returnResult) == R
+//@   modifies frame rulerun, g.returnResult
+//@   nopanic
+//@   loop 0 invariant forks: forked(wg) == nfork && nfork == itercount && added(wg) == len(KC0.RuleEntities)
+//@   loop 0 invariant err: (len(eMsg) > 0 <==> anyfail)
+//@   loop 0 invariant res: fresh(g.returnResult) && dom(g.returnResult) == R && g.returnResult != nil
